@@ -13,11 +13,11 @@ CONSTANTS
   Lo = 0
   Hi = 1
   PVals = {1}
-  LVals = {0, 1}
+  LVals = {1}
   ForbSets = {{}}
   HookExcs = {"badvalue"}
   Inits = {1}
-  Layouts = {11}
+  Layouts = {10}
 INVARIANT Consistent
 PROPERTY LimitsRespected
 PROPERTY ControlFrame
